@@ -134,4 +134,37 @@ theorem old_range_leak_bound {ω c b : Int} (hω : ω ≤ 2 ^ (40 + 128) * b - 1
       _ ≤ 2 ^ 170 * c := mul_le_mul_of_nonneg_left hc (by positivity)
   exact Int.ediv_lt_of_lt_mul hc0 hnum
 
+/-! ### the larger-interval (CFT) sub-proof: the accepted response is independent of the secret -/
+
+/-- **Perfect masking by rejection sampling (Algorithm 5).** For a secret remainder `x ∈ [0, b₂]` and
+any challenge `c ≥ 0`, every response value `D` of the accepted interval `[c·b₂, U]` (`U` the upper
+end of the masking range `[0, U]`) is produced by exactly one legal masking value, `w = D − x·c`, and
+that `w` lies in `[0, U]`. Hence the set of accepted `(w, D)` pairs is in bijection with
+`[c·b₂, U]` for EVERY `x`: conditioned on acceptance the response `D₁` is uniform on the same interval
+whatever the secret is. -/
+theorem large_interval_response_uniform {x c b2 U D : Int} (hx0 : 0 ≤ x) (hx : x ≤ b2) (hc : 0 ≤ c)
+    (hD : c * b2 ≤ D) (hDU : D ≤ U) :
+    (0 ≤ D - x * c ∧ D - x * c ≤ U) ∧ ((D - x * c) + x * c = D) ∧
+      ∀ w : Int, w + x * c = D → w = D - x * c := by
+  have h1 : x * c ≤ c * b2 := by
+    have := mul_le_mul_of_nonneg_left hx hc
+    linarith [mul_comm x c]
+  have h2 : 0 ≤ x * c := mul_nonneg hx0 hc
+  refine ⟨⟨by linarith, by linarith⟩, by ring, fun w hw => by linarith⟩
+
+/-- The number of accepted masking values does not depend on the secret: `w` is accepted for `x` iff
+`w + x·c` lies in `[c·b₂, U]` and `w ∈ [0, U]`; by `large_interval_response_uniform` these `w` are
+exactly `{D − x·c | D ∈ [c·b₂, U]}`. Stated as: the accepted masking values for `x` are the accepted
+masking values for `0` shifted by `−x·c`. -/
+theorem large_interval_accept_shift {x c b2 U w : Int} (hx0 : 0 ≤ x) (hx : x ≤ b2) (hc : 0 ≤ c) :
+    (0 ≤ w ∧ w ≤ U ∧ c * b2 ≤ w + x * c ∧ w + x * c ≤ U) ↔
+      (0 ≤ w + x * c ∧ w + x * c ≤ U ∧ c * b2 ≤ (w + x * c) + 0 * c ∧ (w + x * c) + 0 * c ≤ U) := by
+  have h1 : x * c ≤ c * b2 := by
+    have := mul_le_mul_of_nonneg_left hx hc
+    linarith [mul_comm x c]
+  have h2 : 0 ≤ x * c := mul_nonneg hx0 hc
+  constructor
+  · rintro ⟨a, b, c1, d⟩; exact ⟨by linarith, d, by linarith, by linarith⟩
+  · rintro ⟨a, b, c1, d⟩; exact ⟨by linarith, by linarith, by linarith, by linarith⟩
+
 end Zk.C19Leak
